@@ -151,6 +151,76 @@ class RawValue(Harness):
         return result(f"case{case}", obl, observe={"cls": "ran"}, inputs=inputs)
 
 
+TWICE = ("integer", "boolean", "enumerated", "calibrated", "string", "binary", "boolean-of-float")
+ENUM = {0: "OFF", 1: "ON", 255: "ALL"}
+
+
+def build_twice(lib, kind):
+    E, T = lib.encodings, lib.parameter_types
+    i8 = E.IntegerDataEncoding(8, "unsigned")
+    if kind == "integer":
+        return T.IntegerParameterType("T", i8)
+    if kind == "boolean":
+        return T.BooleanParameterType("T", i8)
+    if kind == "enumerated":
+        return T.EnumeratedParameterType("T", i8, enumeration=(bv.SymDict(ENUM) if hasattr(lib, "real_classes") else dict(ENUM)))
+    if kind == "calibrated":
+        K = lib.calibrators
+        return T.IntegerParameterType("T", E.IntegerDataEncoding(8, "unsigned", default_calibrator=K.PolynomialCalibrator(
+            [K.PolynomialCoefficient(1.5, 0), K.PolynomialCoefficient(2.0, 1)])))
+    if kind == "string":
+        return T.StringParameterType("T", E.StringDataEncoding(fixed_raw_length=8))
+    if kind == "binary":
+        return T.BinaryParameterType("T", E.BinaryDataEncoding(fixed_size_in_bits=8))
+    return T.BooleanParameterType("T", E.FloatDataEncoding(32))
+
+
+class Twice(Harness):
+    """ONE parameter type object decodes two fields in a row (same packet or two packets): each result carries the raw value of ITS OWN field,
+    and the first result is not changed by the second decode"""
+    kind = "twice"
+
+    def run(self, ctx):
+        lib = self.lib
+        kind = TWICE[ctx.choose("kind", len(TWICE))]
+        same_packet = bool(ctx.choose("same_packet", 2))
+        nb = 4 if kind == "boolean-of-float" else 1
+        pt = build_twice(lib, kind)
+        b1, b2 = bv.fresh_bytes("F1_", nb), bv.fresh_bytes("F2_", nb)
+        inputs = {"kind": kind, "same_packet": same_packet, "b1": b1, "b2": b2}
+        if same_packet:
+            pk = lib.packets.CCSDSPacket(raw_data=bv.SymBytes(b1.items + b2.items))
+            pks = [pk, pk]
+        else:
+            pks = [lib.packets.CCSDSPacket(raw_data=b1), lib.packets.CCSDSPacket(raw_data=b2)]
+        outs = []
+        for n in (0, 1):
+            try:
+                outs.append(pt.parse_value(pks[n]))
+            except Exception as e:     # noqa: BLE001 - e.g. an unlisted enumeration value: nothing to check for that field
+                outs.append(e)
+        obl, classes = [], []
+        for n, (o, b) in enumerate(zip(outs, (b1, b2)), 1):
+            if isinstance(o, Exception):
+                classes.append(type(o).__name__)
+                continue
+            classes.append("v")
+            rv = getattr(o, "raw_value", None)
+            if kind in ("string", "binary"):
+                ok = isinstance(rv, bv.SymBytes) and len(rv) == 1 and z3.is_true(z3.simplify(bv.byte_term(rv.items[0]) == bv.byte_term(b.items[0])))
+                obl.append((f"field {n} ({kind}): raw_value is this field's own bytes", ok))
+            elif kind == "boolean-of-float":
+                want = lib.encodings.struct.unpack(">f", b)[0] if hasattr(lib.encodings, "struct") else None
+                ok = isinstance(rv, bv.SymReal) and want is not None and z3.eq(z3.simplify(rv.t), z3.simplify(want.t))
+                obl.append((f"field {n} ({kind}): raw_value is this field's own float", ok))
+            else:
+                obl.append((f"field {n} ({kind}): raw_value is this field's own raw value", (_t(rv) == z3.ZeroExt(bv.W - 8, bv.byte_term(b.items[0]))) if isinstance(rv, bv.SymInt) else False))
+            if kind == "boolean":
+                obl.append((f"field {n} (boolean): value is the truthiness of its own raw value",
+                            (o.t == z3.If(bv.byte_term(b.items[0]) != 0, z3.BitVecVal(1, bv.W), z3.BitVecVal(0, bv.W))) if isinstance(o, bv.SymInt) else False))
+        return result("/".join(classes), obl, observe={"cls": "ran"}, inputs=inputs)
+
+
 COPY_HOOKS = ("__reduce__", "__reduce_ex__", "__copy__", "__deepcopy__", "__getstate__", "__setstate__", "__getnewargs__", "__getnewargs_ex__")
 
 
@@ -179,13 +249,14 @@ class Twin(RawValue):
 
 def make(job):
     lib = bv.install(128)
-    h = (Twin if job["h"] == "twin" else RawValue)(job)
+    h = {"rawvalue": RawValue, "twice": Twice, "twin": Twin}[job["h"]](job)
     h.lib = lib
     return h
 
 
 def jobs(tier):
-    return [{"name": "rawvalue", "h": "rawvalue", "params": {}, "must_reach": [f"case{i}" for i in range(9)]}]
+    return [{"name": "rawvalue", "h": "rawvalue", "params": {}, "must_reach": [f"case{i}" for i in range(9)]},
+            {"name": "decode-twice", "h": "twice", "params": {}, "must_reach": ["v/v"]}]
 
 
 def vacuity_jobs():
@@ -197,6 +268,34 @@ def concrete(req):
     from fractions import Fraction
     from space_packet_parser import common as C
     i = req["input"]
+    if req["kind"] == "twice":
+        import struct
+        import warnings
+
+        class L:
+            from space_packet_parser.xtce import calibrators, encodings, parameter_types
+        from space_packet_parser import packets as P
+        pt = build_twice(L, i["kind"])
+        b1, b2 = bytes.fromhex(i["b1"]["hex"]), bytes.fromhex(i["b2"]["hex"])
+        pks = [P.CCSDSPacket(raw_data=b1 + b2)] * 2 if i["same_packet"] else [P.CCSDSPacket(raw_data=b1), P.CCSDSPacket(raw_data=b2)]
+        outs, bad = [], []
+        with warnings.catch_warnings():
+            warnings.simplefilter("ignore")
+            for n in (0, 1):
+                try:
+                    outs.append(pt.parse_value(pks[n]))
+                except Exception as e:    # noqa: BLE001
+                    outs.append(e)
+        for n, (o, b) in enumerate(zip(outs, (b1, b2)), 1):
+            if isinstance(o, Exception):
+                continue
+            want = b if i["kind"] in ("string", "binary") else struct.unpack(">f", b)[0] if i["kind"] == "boolean-of-float" else b[0]
+            same = o.raw_value == want or (want != want and o.raw_value != o.raw_value)
+            if not same:
+                bad.append(f"field {n} (bytes {b.hex()}): raw_value {o.raw_value!r}, expected {want!r}")
+            if i["kind"].startswith("boolean") and bool(o) != bool(want):
+                bad.append(f"field {n} (bytes {b.hex()}): value {o!r}, expected {bool(want)}")
+        return {"cls": "ran", "ok": not bad, "bad": bad}
     case, v, r = i["case"], i["v"], i["r"]
     x, y = float(Fraction(i["x"]["q"])), float(Fraction(i["y"]["q"]))
     b = bytes.fromhex(i["b"]["hex"])
@@ -246,6 +345,9 @@ def concrete(req):
 def judge(req, got):
     if got.get("cls") != "ran":
         return "error", str(got)[:300]
+    if req["kind"] == "twice" and not got["ok"]:
+        i = req["input"]
+        return "reproduced", f"one {i['kind']} parameter type object decoding two fields in a row ({'same packet' if i['same_packet'] else 'two packets'}): " + "; ".join(got["bad"])
     return ("not-reproduced", "holds on the real classes") if got["ok"] else ("reproduced", f"case {req['input']['case']} fails on the real classes with {req['input']}")
 
 
